@@ -1431,6 +1431,10 @@ func (vc *VC) hardcoded(fr *Frame, fn *ssa.Function, args []*Val, sig *types.Sig
 		vc.lockOp(fr, args[0], []string{"L"}, "lock", pos)
 		return unit, true
 	case "(*sync.Cond).Signal", "(*sync.Cond).Broadcast":
+		if vc.p.specFor(fn) != nil {
+			// an assumed contract counts the wake-ups (contracts/ext/std.spec)
+			return nil, false
+		}
 		return unit, true
 	}
 	if fn.Pkg != nil && fn.Pkg.Pkg.Path() == "sync/atomic" && fn.Signature.Recv() != nil && len(args) > 0 {
